@@ -20,7 +20,34 @@ IDS = {
 
 
 def cid(cls):
-    return IDS.get(getattr(cls, "__name__", type(cls).__name__), 99)
+    name = getattr(cls, "__name__", type(cls).__name__)
+    if name.startswith("Marker"):
+        return int(name[6:])
+    return IDS.get(name, 99)
+
+
+def push_default_probe(B):
+    """pushDefaultLayers() on builders that already hold something: (what was pushed before, what the builder holds afterwards)"""
+    from yowsup.layers import YowLayer
+    mk = lambda n: type("Marker%d" % n, (YowLayer,), {})
+    m90, m91, m92 = mk(90), mk(91), mk(92)
+    out = []
+    for pre in ([], [m90], [m90, m91], [(m90, m91)], [m90, (m91, m92)], "defaults", "defaults+"):
+        try:
+            b = B()
+            if pre in ("defaults", "defaults+"):
+                b.pushDefaultLayers()
+                if pre == "defaults+":
+                    b.push(m90)
+            else:
+                for x in pre:
+                    b.push(x)
+            before = [describe(x) for x in b.layers]
+            b.pushDefaultLayers()
+            out.append((before, [describe(x) for x in b.layers]))
+        except Exception as e:
+            out.append(([("S", 0)], "raise:" + type(e).__name__))
+    return out
 
 
 def describe(item):
@@ -48,7 +75,7 @@ def b(x):
 def collect():
     import yowsup.stacks.yowstack as ys
     B = ys.YowStackBuilder
-    out = {"core": None, "protocol": [], "layers": [], "stack": []}
+    out = {"core": None, "protocol": [], "layers": [], "stack": [], "pushdefault": push_default_probe(B)}
     try:
         out["core"] = [describe(x) for x in B.getCoreLayers()]
     except Exception as e:
@@ -104,6 +131,10 @@ def generate():
     L.append("/-- instances of getDefaultStack(axolotl, groups, media, privacy, profiles), bottom first; none = it raised -/")
     L.append("def defaultStack : List ((Bool × Bool × Bool × Bool × Bool) × Option (List Slot)) := [")
     L.append(",\n".join("  ((%s, %s, %s, %s, %s), %s)" % (b(f[0]), b(f[1]), b(f[2]), b(f[3]), b(f[4]), opt_slots(v)) for f, v in o["stack"]))
+    L.append("]")
+    L.append("/-- (what the builder held, what it holds after pushDefaultLayers()), bottom first; none = it raised -/")
+    L.append("def pushDefaultProbe : List (List Slot × Option (List Slot)) := [")
+    L.append(",\n".join("  ([%s], %s)" % (", ".join(slot_lean(d) for d in pre), opt_slots(v)) for pre, v in o["pushdefault"]))
     L.append("]")
     L.append("end Yow.Gen")
     return "\n".join(L) + "\n"
